@@ -9,6 +9,9 @@ import TflModel.Driver.Regularizers
 import TflModel.Driver.Ensembles
 import TflModel.Driver.Keypoints
 import TflModel.Driver.Asserts
+import TflModel.Driver.Alt
+import TflModel.Driver.Initializers
+import TflModel.Driver.Units
 /-! Line-protocol driver: one op per input line, one reply line per op.
 Imports only Mathlib-free `Model/*` and `Driver/*` modules, so it links as a native executable. -/
 open Tfl Tfl.Wire
@@ -22,7 +25,10 @@ def handlers : List (String × Handler) :=
   Tfl.Driver.Regularizers.handlers ++
   Tfl.Driver.Ensembles.handlers ++
   Tfl.Driver.Keypoints.handlers ++
-  Tfl.Driver.Asserts.handlers
+  Tfl.Driver.Asserts.handlers ++
+  Tfl.Driver.Alt.handlers ++
+  Tfl.Driver.Initializers.handlers ++
+  Tfl.Driver.Units.handlers
 
 def handleLine (line : String) : String :=
   match (line.trimAscii.toString).splitOn " " with
